@@ -17,6 +17,7 @@ import EasyMl.Lemmas.FallibleZip
 import EasyMl.Lemmas.FallibleExpansion
 import EasyMl.Lemmas.FallibleRange
 import EasyMl.Lemmas.FallibleNamed
+import EasyMl.Lemmas.PartViews
 
 namespace EasyMl.C16
 open EasyMl EasyMl.Spec EasyMl.Fallible EasyMl.MatrixView
@@ -307,6 +308,28 @@ theorem mreverse_get_total (src : MView) (hsrc : src.WF) (rows columns : Bool) :
 /-- `MatrixPart` with rectangular row slices. -/
 theorem mpart_get_total (p : MatrixPart) (h : p.Rect) : (MView.ofPart p).Total :=
   mpart_total p h
+
+/-- … and **every part `Matrix::partition` hands out is one**: for every matrix and every pair of
+    boundary lists the call accepts, each part has rectangular row slices, so its checked getters
+    are total (`Some` ⇔ inside its size, never a panic) and it is a legitimate source of further
+    views (`MBuilt`). -/
+theorem partition_parts_get_total (m : MatrixMeta) (hm : m.Inv) (rp cp : List Nat)
+    (parts : List MatrixPart) (h : partition m rp cp = .ok parts) :
+    ∀ p ∈ parts, p.Rect ∧ (MView.ofPart p).WF ∧ MBuilt (ν := ν) (MView.ofPart p) := by
+  intro p hp
+  obtain ⟨hrect, hr, hc⟩ := partition_parts_rect m hm rp cp parts h p hp
+  obtain ⟨hd, h1, h2, hb⟩ := hm
+  have hR : m.rows ≤ usizeMax := by
+    calc m.rows = m.rows * 1 := by simp
+      _ ≤ m.rows * m.columns := Nat.mul_le_mul_left _ h2
+      _ ≤ usizeMax := by rw [← hd]; exact hb
+  have hC : m.columns ≤ usizeMax := by
+    calc m.columns = 1 * m.columns := by simp
+      _ ≤ m.rows * m.columns := Nat.mul_le_mul_right _ h1
+      _ ≤ usizeMax := by rw [← hd]; exact hb
+  have hpr : p.rows ≤ usizeMax := Nat.le_trans hr hR
+  have hpc : p.columns ≤ usizeMax := Nat.le_trans hc hC
+  exact ⟨hrect, ⟨hpr, hpc, mpart_total p hrect⟩, .part hrect hpr hpc⟩
 
 /-- `MatrixRefTensor`. -/
 theorem matrixRefTensor_get_total (t : TView ν) (ht : t.WF) (h2 : t.shape.length = 2) :
